@@ -614,6 +614,15 @@ def apply_op(w, op):
             raise LookupError("option not offered by the generated parser")
         cc.cmdline_args_override(cfg, ns)
         return None
+    if name == "setcfg-nv":    # assign a Config instance that was filled without validation (it may violate its own schema validator)
+        path = op[1]
+        owner = chained(cfg, path.rsplit(".", 1)[0]) if "." in path else cfg
+        key = path.rsplit(".", 1)[-1]
+        field = owner._schema._get_field(key)
+        sub = field()
+        sub.load_tree(w.dec(op[2]), validate=False)
+        setattr(owner, key, sub)
+        return None
     if name == "setcfg":       # assign a Config instance built from the sub-schema, with a tree loaded
         path = op[1]
         owner = chained(cfg, path.rsplit(".", 1)[0]) if "." in path else cfg
@@ -849,6 +858,9 @@ def ops_for(spec, leafname, tier="quick"):
                 if v_bad is not None and _jsonlike(v_bad):
                     ops.append(["set", key, tree_for(p0, v_bad)])
                     ops.append(["setitem", key, tree_for(p0, v_bad)])
+            if f.get("reject") and _jsonlike(f["reject"][1]):
+                # a configuration object that its own schema validator would reject (filled without validation)
+                ops.append(["setcfg-nv", key, tree_for(f["reject"][0], f["reject"][1])])
             ops.append(["set", key, D()])
             ops.append(["set", key, 5])
             ops.append(["set", key, [1]])
